@@ -48,6 +48,14 @@ theorem C18_roundtrip_dimensional (env : EnvOK tab R K r) (ok : ru.OK tab) (c : 
     roundTrip tab R K rnd c ru.toFmt = .ok (.ok (embed (readBack rnd r ru c))) :=
   roundTrip_readBack env ok c hT hv
 
+/-- **Write, then read (any units, no side condition).** For every consistent correlation with a non-zero reference
+temperature, every `rnd` that is monotone and has the six-digit property, and every positive temperature unit:
+formatting succeeds, loading the written entry succeeds, and the result is `readBack` — all values plain numbers. -/
+theorem C18_roundtrip_any_units (env : EnvOK tab R K r) (ok : ru.OK tab) {c : Corr} (v : Valid c) (hT : c.Tref ≠ 0)
+    (hr : Round6 rnd) (hm : Mono rnd) (hf : 0 < ru.T.2) :
+    roundTrip tab R K rnd c ru.toFmt = .ok (.ok (embed (readBack rnd r ru c))) :=
+  roundTrip_readBack env ok c (rT_ne_zero hr (ne_of_gt hf) hT) (readBack_valid hm hf v)
+
 /-- **T1 (values).** In the non-dimensional form what is read back has *exactly* the reference enthalpy and entropy
 of the original and, point by point in ascending temperature, exactly its heat capacities — for every `rnd`: the values
 never pass through `'%g'`. -/
